@@ -120,11 +120,18 @@ Proof.
     split; [exact (fields_wf_all _ _ W Hu)|]. rewrite forallb_forall in R. now apply R.
 Qed.
 
+Lemma sfields_ok : forall fs, forallb sfield_wf fs = true -> forallb sfield_ok fs = true.
+Proof.
+  intros fs H. apply forallb_forall. intros x Hx. rewrite forallb_forall in H. specialize (H x Hx).
+  unfold sfield_wf in H. apply andb_true_iff in H. destruct H as [_ H]. exact H.
+Qed.
+
 Lemma fields_ok_holds : forall e, quantified e -> fields_ok e = true.
 Proof.
   intros e Q. unfold fields_ok. apply forallb_forall. intros u Hu.
-  destruct (all_ufields_ok e u Q Hu) as [W _]. destruct (ufield_wf_parts u W) as [_ [_ W3]].
-  unfold ufield_ok. now rewrite W3.
+  destruct (all_ufields_ok e u Q Hu) as [W _]. destruct (ufield_wf_parts u W) as [_ [Wi W3]].
+  unfold ufield_ok. rewrite W3. cbn [negb andb]. unfold inline_wf in Wi.
+  destruct (uf_kind u); try reflexivity; apply andb_true_iff in Wi; destruct Wi as [Wi _]; now apply sfields_ok.
 Qed.
 
 (* what a schema of the block defines *)
@@ -168,24 +175,31 @@ Proof.
   - now apply names_enum_defined.
 Qed.
 
-Lemma ref_ok_resolves : forall e fl u, is_inline_kind u = false -> ref_ok e u = true ->
+Lemma sfields_resolve : forall e fl fs, forallb (fun s => item_ref_ok e (sf_kind s)) fs = true ->
+  forallb (fun s => ref_resolves (defined (expand_with e fl)) (otype_of_item (sf_kind s))) fs = true.
+Proof.
+  intros e fl fs H. apply forallb_forall. intros x Hx. rewrite forallb_forall in H. now apply item_resolves, H.
+Qed.
+
+Lemma ref_ok_resolves : forall e fl u, ref_ok e u = true ->
   resolves (defined (expand_with e fl)) (of_ufield u) = true.
 Proof.
-  intros e fl [n k r o] Hi H. unfold ref_ok in H. cbn [uf_kind] in H. unfold resolves, field_resolves, of_ufield. cbn [uf_kind].
-  destruct k as [pt j|m|m|m|p f t|tn j|i|i|sfs|sfs|os]; try discriminate Hi;
-    cbn [f_type f_inline ref_resolves]; rewrite ?andb_true_r; try reflexivity.
+  intros e fl [n k r o] H. unfold ref_ok in H. cbn [uf_kind] in H. unfold resolves, field_resolves, of_ufield. cbn [uf_kind].
+  destruct k as [pt j|m|m|m|p f t|tn j|i|i|sfs|sfs|os];
+    cbn [f_type f_inline ref_resolves il_fields forallb andb]; rewrite ?andb_true_r; try reflexivity.
   - apply resolves_local. now apply names_object_defined.
   - apply resolves_local. now apply names_oneof_defined.
   - apply resolves_local. now apply names_enum_defined.
   - now apply item_resolves.
   - now apply item_resolves.
+  - now apply sfields_resolve.
+  - now apply sfields_resolve.
 Qed.
 
 Lemma closed_holds : forall e fl, quantified e -> closed (expand_with e fl) = true.
 Proof.
   intros e fl Q. apply expand_closed. unfold user_refs_ok. apply forallb_forall. intros u Hu.
-  destruct (all_ufields_ok e u Q Hu) as [W R]. destruct (ufield_wf_parts u W) as [_ [Hi _]].
-  now apply ref_ok_resolves.
+  destruct (all_ufields_ok e u Q Hu) as [_ R]. now apply ref_ok_resolves.
 Qed.
 
 (* ---- path parameters are request fields ------------------------------------------------------------ *)
@@ -316,8 +330,8 @@ Qed.
 (* ---- conversion succeeds ------------------------------------------------------------------------------ *)
 Theorem convert_accepts : forall e, quantified e -> exists fl, convert e = Ok (expand_with e fl).
 Proof.
-  intros e Q. destruct (expand_accepts e Q) as [fl Hx]. exists fl. unfold convert. rewrite Hx, (q_no_list e Q).
-  rewrite (closed_holds e fl Q), (fields_ok_holds e Q), (query_params_holds e Q), (command_params_holds e Q).
+  intros e Q. destruct (expand_accepts e Q) as [fl Hx]. exists fl. unfold convert. rewrite Hx.
+  rewrite (closed_holds e fl Q), (fields_ok_holds e Q), (query_params_holds e Q), (command_params_holds e Q), (q_no_list e Q).
   reflexivity.
 Qed.
 
@@ -365,23 +379,18 @@ Qed.
 
 (* ---- the scope of a message of user fields -------------------------------------------------------------- *)
 Lemma of_ufield_facts : forall u,
-  f_json (of_ufield u) = uf_name u /\ f_optional (of_ufield u) = uf_optional u
+  f_json (of_ufield u) = uf_name u /\ f_optional (of_ufield u) = sp_presence u
   /\ is_map_field (of_ufield u) = is_map_kind u.
-Proof. intros [n k r o]. unfold of_ufield, is_map_kind, is_map_field. cbn [uf_kind]. destruct k as [pt j|m|m|m|p f t|tn j|i|i|sfs|sfs|os]; cbn; repeat split; try reflexivity; destruct i; reflexivity. Qed.
-
-Lemma of_ufield_no_inline : forall u, is_inline_kind u = false -> f_inline (of_ufield u) = None.
-Proof. intros [n k r o] H. unfold of_ufield, is_inline_kind in *. cbn [uf_kind] in *. destruct k; try reflexivity; discriminate. Qed.
+Proof.
+  intros [n k r o]. unfold of_ufield, is_map_kind, is_map_field, sp_presence, is_repeated_kind. cbn [uf_kind uf_optional].
+  destruct k as [pt j|m|m|m|p f t|tn j|i|i|sfs|sfs|os]; cbn; repeat split;
+    try reflexivity; try (now rewrite andb_true_r); try (now rewrite andb_false_r); destruct i; reflexivity.
+Qed.
 
 Lemma no_inline_names : forall fs, Forall (fun f => f_inline f = None) fs -> inline_names fs = [] /\ inline_scopes fs = [].
 Proof.
   induction 1 as [|f l H _ [IH1 IH2]]; [split; reflexivity|]. unfold inline_names, inline_scopes in *. cbn [flat_map].
   rewrite H, IH1, IH2. split; reflexivity.
-Qed.
-
-Lemma wf_no_inline : forall fs, forallb ufield_wf fs = true -> Forall (fun f => f_inline f = None) (map of_ufield fs).
-Proof.
-  intros fs H. apply Forall_map. apply Forall_forall. intros u Hu. rewrite forallb_forall in H.
-  destruct (ufield_wf_parts u (H u Hu)) as [_ [Hi _]]. now apply of_ufield_no_inline.
 Qed.
 
 (* a message without nested messages and without inline types has one scope *)
@@ -401,7 +410,7 @@ Qed.
 Lemma user_scope : forall fs, fields_scope false (map of_ufield fs) = sp_field_scope fs.
 Proof.
   intros fs. unfold fields_scope, sp_field_scope, entry_names, proto_name.
-  rewrite (filter_map_comm of_ufield f_optional uf_optional) by (intros x; apply of_ufield_facts).
+  rewrite (filter_map_comm of_ufield f_optional sp_presence) by (intros x; apply of_ufield_facts).
   rewrite (filter_map_comm of_ufield is_map_field is_map_kind) by (intros x; apply of_ufield_facts).
   rewrite !map_map. f_equal; [|f_equal]; apply map_ext; intros u; destruct (of_ufield_facts u) as [-> _]; reflexivity.
 Qed.
@@ -412,8 +421,84 @@ Proof.
   apply Sub_app; apply Sub_map; now apply Sub_filter_both.
 Qed.
 
-Lemma fields_wf_nodup : forall fs, fields_wf fs = true -> NoDup (sp_field_scope fs).
+Lemma Sub_flat_map : forall {A B} (g : A -> list B) a b, Sub a b -> Sub (flat_map g a) (flat_map g b).
+Proof.
+  induction 1 as [|x a b _ IH|x a b _ IH]; cbn [flat_map]; [constructor| |].
+  - rewrite <- (app_nil_l (flat_map g a)). apply Sub_app; [apply Sub_nil_l|exact IH].
+  - apply Sub_app; [apply Sub_refl|exact IH].
+Qed.
+
+Lemma sp_inline_names_sub : forall a b, Sub a b -> Sub (sp_inline_names a) (sp_inline_names b).
+Proof. intros a b H. unfold sp_inline_names. now apply Sub_flat_map. Qed.
+
+Lemma fields_wf_nodup_all : forall fs, fields_wf fs = true -> NoDup (sp_field_scope fs ++ sp_inline_names fs).
 Proof. intros fs H. unfold fields_wf in H. apply andb_true_iff in H. destruct H as [_ H]. now apply nodup_bytes_NoDup. Qed.
+Lemma fields_wf_nodup : forall fs, fields_wf fs = true -> NoDup (sp_field_scope fs).
+Proof. intros fs H. eapply NoDup_app_l. apply fields_wf_nodup_all. exact H. Qed.
+Lemma fields_wf_each : forall fs, fields_wf fs = true -> forallb ufield_wf fs = true.
+Proof. intros fs H. unfold fields_wf in H. apply andb_true_iff in H. tauto. Qed.
+
+Definition all_nodup_l (l : list (list bytes)) : Prop := Forall (fun sc => NoDup sc) l.
+
+Lemma status_values_names_n : forall p l n0, map fst (status_values_n p l n0) = sp_enum_values_n p l n0.
+Proof.
+  intros p [|s r] n0; [reflexivity|]. cbn [status_values_n sp_enum_values_n].
+  destruct (has_suffix (bs "UNSPECIFIED") s && (n0 =? 0)); cbn [map fst]; rewrite number_from_names; reflexivity.
+Qed.
+Lemma status_values_names : forall p l, map fst (status_values p l) = sp_enum_values p l.
+Proof. intros p l. apply status_values_names_n. Qed.
+
+(* the inline types of a message of user fields: names and scopes *)
+Lemma inline_enum_values_eq : forall n os,
+  map fst (status_values (to_screaming_snake n ++ [95]) os) = sp_inline_enum_values n os.
+Proof.
+  intros n os. rewrite status_values_names. unfold sp_inline_enum_values, sp_enum_values, sp_enum_values_n.
+  destruct os as [|o r]; [reflexivity|]. rewrite andb_true_r. reflexivity.
+Qed.
+
+Lemma user_inline_names : forall fs, inline_names (map of_ufield fs) = sp_inline_names fs.
+Proof.
+  induction fs as [|[n k r o] fs IH]; [reflexivity|]. unfold inline_names, sp_inline_names in *. cbn [map flat_map].
+  rewrite IH. f_equal. unfold of_ufield. cbn [uf_kind uf_name].
+  destruct k as [pt j|m|m|m|p f t|tn j|i|i|sfs|sfs|os]; cbn [f_inline f_type il_kind il_options N.eqb Pos.eqb]; try reflexivity.
+  now rewrite inline_enum_values_eq.
+Qed.
+
+(* no inline oneof of these fields has an option named type (reserved_free) *)
+Definition type_free (fs : list ufield) : Prop :=
+  forall u, In u fs -> match uf_kind u with
+                       | KInlineOneof opts => forallb (fun o => negb (bytes_eqb (to_snake (sf_name o)) (bs "type"))) opts = true
+                       | _ => True end.
+
+Lemma type_free_of : forall e fs, reserved_free e = true -> (forall u, In u fs -> In u (all_ufields e)) -> type_free fs.
+Proof.
+  intros e fs Hr Hin u Hu. destruct (reserved_free_parts e Hr) as [_ [_ [_ [_ [_ [_ R]]]]]].
+  rewrite forallb_forall in R. specialize (R u (Hin u Hu)). destruct (uf_kind u); try exact I. exact R.
+Qed.
+
+Lemma type_free_sub : forall a b, (forall u, In u a -> In u b) -> type_free b -> type_free a.
+Proof. intros a b H Hb u Hu. apply Hb. now apply H. Qed.
+
+Lemma user_inline_scopes : forall fs, forallb ufield_wf fs = true -> type_free fs ->
+  all_nodup_l (inline_scopes (map of_ufield fs)).
+Proof.
+  intros fs Hw Ht. unfold inline_scopes. rewrite flat_map_concat_map, map_map, <- flat_map_concat_map.
+  apply Forall_forall. intros sc Hsc. apply in_flat_map in Hsc. destruct Hsc as [u [Hu Hsc]].
+  rewrite forallb_forall in Hw. destruct (ufield_wf_parts u (Hw u Hu)) as [_ [Wi _]]. specialize (Ht u Hu).
+  destruct u as [n k r o]. unfold of_ufield in Hsc. unfold inline_wf in Wi. cbn [uf_kind] in *.
+  destruct k as [pt j|m|m|m|p f t|tn j|i|i|sfs|sfs|os]; cbn [f_inline il_kind il_fields N.eqb Pos.eqb] in Hsc; try contradiction.
+  - (* inline object *)
+    destruct Hsc as [<-|[]]. apply andb_true_iff in Wi. destruct Wi as [_ Wn]. apply nodup_bytes_NoDup in Wn.
+    unfold sp_inline_scope in Wn. rewrite map_map. exact Wn.
+  - (* inline oneof *)
+    destruct Hsc as [<-|[]]. apply andb_true_iff in Wi. destruct Wi as [_ Wn]. apply nodup_bytes_NoDup in Wn.
+    unfold sp_inline_scope in Wn. rewrite app_nil_r in Wn. rewrite map_map.
+    destruct sfs as [|s0 sr]; [constructor|]. cbn [is_nil].
+    apply NoDup_app_intro; [exact Wn|repeat constructor; intros []|].
+    intros x Hx [<-|[]]. apply in_map_iff in Hx. destruct Hx as [s1 [E Hs1]].
+    rewrite forallb_forall in Ht. specialize (Ht s1 Hs1). unfold proto_name, of_sfield in E. cbn [f_json] in E.
+    rewrite E, bytes_eqb_refl in Ht. discriminate.
+Qed.
 
 (* names that start with a lower-case letter are neither presence oneofs nor map entries *)
 Definition lower_start (s : bytes) : bool := match s with c :: _ => is_low c | [] => false end.
@@ -437,15 +522,65 @@ Proof.
   rewrite E. eexists. eexists. split; [reflexivity|]. unfold to_upper. rewrite H. now apply low_upper_is_cap.
 Qed.
 
-Lemma lower_not_in_extras : forall fs x, forallb ufield_wf fs = true -> lower_start x = true ->
-  ~ In x (map (fun u => 95 :: to_snake (uf_name u)) (filter uf_optional fs)
-          ++ map (fun u => map_name (to_snake (uf_name u))) (filter is_map_kind fs)).
+Lemma camel_cap_start : forall n, name_ok n = true -> exists c t, to_camel n = c :: t /\ is_cap c = true.
 Proof.
-  intros fs x Hw Hx Hin. apply in_app_or in Hin. destruct Hin as [Hin|Hin]; apply in_map_iff in Hin;
-    destruct Hin as [u [<- Hu]]; apply filter_In in Hu; destruct Hu as [Hu _].
-  - discriminate.
-  - rewrite forallb_forall in Hw. specialize (Hw u Hu). destruct (ufield_wf_parts u Hw) as [Hn _]. destruct (map_name_cap_start _ (to_snake_lower_start _ Hn)) as [c [t [E Hc]]].
-    rewrite E in Hx. cbn in Hx. rewrite (cap_not_low c Hc) in Hx. discriminate.
+  intros [|c r] H; [discriminate|]. unfold name_ok in H. apply andb_true_iff in H. destruct H as [Hi Hs].
+  cbn [starts_letter] in Hs. exact (to_camel_starts_cap c r Hs Hi).
+Qed.
+
+Lemma camel_name_ok : forall n, name_ok n = true -> name_ok (to_camel n) = true.
+Proof.
+  intros n H. destruct (camel_cap_start n H) as [c [t [E Hc]]]. unfold name_ok. apply andb_true_iff. split.
+  - pose proof (to_camel_alnum n) as Ha. unfold ident. rewrite forallb_forall in *. intros x Hx. specialize (Ha x Hx).
+    unfold alnum in Ha. unfold plain. now rewrite Ha.
+  - rewrite E. cbn [starts_letter]. unfold is_letter. now rewrite Hc.
+Qed.
+
+(* the inline type names and inline enum values never start with a lower-case letter *)
+Lemma inline_names_not_lower : forall fs x, forallb ufield_wf fs = true -> In x (sp_inline_names fs) -> lower_start x = false.
+Proof.
+  intros fs x Hw Hx. unfold sp_inline_names in Hx. apply in_flat_map in Hx. destruct Hx as [u [Hu Hx]].
+  rewrite forallb_forall in Hw. destruct (ufield_wf_parts u (Hw u Hu)) as [Hn _].
+  destruct (camel_cap_start _ Hn) as [c [t [E Hc]]].
+  assert (Hcamel : lower_start (to_camel (uf_name u)) = false) by (rewrite E; cbn; now apply cap_not_low).
+  destruct (uf_kind u) as [pt j|m|m|m|p f te|tn j|i|i|sfs|sfs|os]; try contradiction.
+  - destruct Hx as [<-|[]]. exact Hcamel.
+  - destruct Hx as [<-|[]]. exact Hcamel.
+  - destruct Hx as [<-|Hx]; [exact Hcamel|].
+    (* an inline enum value: the prefix SCREAMING(<Camel>)_ starts with a capital *)
+    set (P := to_screaming_snake (to_camel (uf_name u)) ++ [95]) in *.
+    assert (HP : exists c' t', P = c' :: t' /\ is_cap c' = true).
+    { unfold P. rewrite to_screaming_snake_upper.
+      pose proof (to_snake_lower_start _ (camel_name_ok _ Hn)) as Hl.
+      destruct (to_snake (to_camel (uf_name u))) as [|c0 r0]; [discriminate|]. cbn [lower_start] in Hl.
+      cbn [map app]. eexists. eexists. split; [reflexivity|]. unfold to_upper. rewrite Hl. now apply low_upper_is_cap. }
+    destruct HP as [c' [t' [EP Hc']]].
+    assert (Hval : forall o, lower_start (sp_enum_value_name P o) = false).
+    { intros o. unfold sp_enum_value_name. destruct (has_prefix P o) eqn:Ep.
+      - rewrite EP in Ep. destruct o as [|y o']; [discriminate|]. cbn in Ep. apply andb_true_iff in Ep. destruct Ep as [Ey _].
+        apply N.eqb_eq in Ey. subst y. cbn. now apply cap_not_low.
+      - rewrite EP. cbn. now apply cap_not_low. }
+    unfold sp_inline_enum_values in Hx. fold P in Hx. destruct os as [|o0 r0].
+    + destruct Hx as [<-|[]]. rewrite EP. cbn. now apply cap_not_low.
+    + destruct (has_suffix (bs "UNSPECIFIED") o0).
+      * apply in_map_iff in Hx. destruct Hx as [o [<- _]]. apply Hval.
+      * destruct Hx as [<-|Hx]; [rewrite EP; cbn; now apply cap_not_low|].
+        apply in_map_iff in Hx. destruct Hx as [o [<- _]]. apply Hval.
+Qed.
+
+Lemma lower_not_in_extras : forall fs x, forallb ufield_wf fs = true -> lower_start x = true ->
+  ~ In x ((map (fun u => 95 :: to_snake (uf_name u)) (filter sp_presence fs)
+           ++ map (fun u => map_name (to_snake (uf_name u))) (filter is_map_kind fs))
+          ++ sp_inline_names fs).
+Proof.
+  intros fs x Hw Hx Hin. apply in_app_or in Hin. destruct Hin as [Hin|Hin].
+  - apply in_app_or in Hin. destruct Hin as [Hin|Hin]; apply in_map_iff in Hin;
+      destruct Hin as [u [<- Hu]]; apply filter_In in Hu; destruct Hu as [Hu _].
+    + discriminate.
+    + rewrite forallb_forall in Hw. destruct (ufield_wf_parts u (Hw u Hu)) as [Hn _].
+      destruct (map_name_cap_start _ (to_snake_lower_start _ Hn)) as [c [t [E Hc]]].
+      rewrite E in Hx. cbn in Hx. rewrite (cap_not_low c Hc) in Hx. discriminate.
+  - rewrite (inline_names_not_lower fs x Hw Hin) in Hx. discriminate.
 Qed.
 
 (* user fields plus fields the expansion appends: distinct when the appended names are lower-case
@@ -454,19 +589,23 @@ Lemma scope_with_added : forall fs added,
   fields_wf fs = true -> NoDup added ->
   Forall (fun x => lower_start x = true /\ ~ In x (map (fun u => to_snake (uf_name u)) fs)) added ->
   NoDup (map (fun u => to_snake (uf_name u)) fs ++ added
-         ++ map (fun u => 95 :: to_snake (uf_name u)) (filter uf_optional fs)
-         ++ map (fun u => map_name (to_snake (uf_name u))) (filter is_map_kind fs)).
+         ++ (map (fun u => 95 :: to_snake (uf_name u)) (filter sp_presence fs)
+             ++ map (fun u => map_name (to_snake (uf_name u))) (filter is_map_kind fs))
+         ++ sp_inline_names fs).
 Proof.
-  intros fs added Hw Ha Hadd. pose proof (fields_wf_nodup fs Hw) as Hn. unfold sp_field_scope in Hn.
-  unfold fields_wf in Hw. apply andb_true_iff in Hw. destruct Hw as [Hw _].
+  intros fs added Hw Ha Hadd. pose proof (fields_wf_nodup_all fs Hw) as Hn. unfold sp_field_scope in Hn.
+  pose proof (fields_wf_each fs Hw) as Hw'.
   set (P := map (fun u => to_snake (uf_name u)) fs) in *.
-  set (X := map (fun u => 95 :: to_snake (uf_name u)) (filter uf_optional fs)
-            ++ map (fun u => map_name (to_snake (uf_name u))) (filter is_map_kind fs)) in *.
-  assert (HP : NoDup P) by (eapply NoDup_app_l; exact Hn).
-  assert (HX : NoDup X) by (eapply NoDup_app_r; exact Hn).
+  set (X := (map (fun u => 95 :: to_snake (uf_name u)) (filter sp_presence fs)
+             ++ map (fun u => map_name (to_snake (uf_name u))) (filter is_map_kind fs)) ++ sp_inline_names fs) in *.
+  assert (Hn' : NoDup (P ++ X)).
+  { unfold X. rewrite app_assoc. exact Hn. }
+  assert (HP : NoDup P) by (eapply NoDup_app_l; exact Hn').
+  assert (HX : NoDup X) by (eapply NoDup_app_r; exact Hn').
   assert (HPX : forall x, In x P -> ~ In x X).
-  { intros x Hx Hx'. clear -Hn Hx Hx'. induction P as [|p P IH]; [destruct Hx|]. cbn in Hn. inversion Hn; subst.
+  { intros x Hx Hx'. clear -Hn' Hx Hx'. induction P as [|p P IH]; [destruct Hx|]. cbn in Hn'. inversion Hn'; subst.
     destruct Hx as [->|Hx]; [apply H1; apply in_or_app; now right|now apply IH]. }
+  change (NoDup (P ++ added ++ X)).
   apply NoDup_app_intro; [exact HP| |].
   - apply NoDup_app_intro; [exact Ha|exact HX|]. intros x Hx. rewrite Forall_forall in Hadd.
     destruct (Hadd x Hx) as [Hl _]. now apply lower_not_in_extras.
@@ -480,14 +619,6 @@ Proof. intros. unfold file_scope. apply flat_map_app. Qed.
 Lemma file_scope_flat_map : forall {A} f (g : A -> list component) l,
   file_scope f (flat_map g l) = flat_map (fun x => file_scope f (g x)) l.
 Proof. induction l as [|x l IH]; [reflexivity|]. cbn [flat_map]. now rewrite file_scope_app, IH. Qed.
-
-Lemma status_values_names_n : forall p l n0, map fst (status_values_n p l n0) = sp_enum_values_n p l n0.
-Proof.
-  intros p [|s r] n0; [reflexivity|]. cbn [status_values_n sp_enum_values_n].
-  destruct (has_suffix (bs "UNSPECIFIED") s && (n0 =? 0)); cbn [map fst]; rewrite number_from_names; reflexivity.
-Qed.
-Lemma status_values_names : forall p l, map fst (status_values p l) = sp_enum_values p l.
-Proof. intros p l. apply status_values_names_n. Qed.
 
 Lemma file_scope_methods : forall f base name verb rel req resp sq,
   file_scope f (fst (method_components base name verb rel req resp sq)) =
@@ -622,19 +753,21 @@ Qed.
 
 Lemma sub_wf : forall a b, Sub a b -> fields_wf b = true -> fields_wf a = true.
 Proof.
-  intros a b Hs Hb. pose proof (fields_wf_nodup b Hb) as Hn. unfold fields_wf in *.
-  apply andb_true_iff in Hb. destruct Hb as [Hw _]. apply andb_true_iff. split.
+  intros a b Hs Hb. pose proof (fields_wf_nodup_all b Hb) as Hn. pose proof (fields_wf_each b Hb) as Hw. unfold fields_wf.
+  apply andb_true_iff. split.
   - apply forallb_forall. intros u Hu. rewrite forallb_forall in Hw. apply Hw. eapply Sub_In; eassumption.
-  - apply nodup_bytes_NoDup. eapply Sub_NoDup; [apply sp_field_scope_sub; exact Hs|exact Hn].
+  - apply nodup_bytes_NoDup. eapply Sub_NoDup; [|exact Hn].
+    apply Sub_app; [now apply sp_field_scope_sub|now apply sp_inline_names_sub].
 Qed.
 
-(* a message that holds user fields only *)
-Lemma user_msg_scopes : forall name psm fs, fields_wf fs = true ->
+(* a message of user fields (no nested messages): its own scope and the scopes of its inline types *)
+Lemma user_msg_scopes : forall name psm fs, fields_wf fs = true -> type_free fs ->
   all_nodup (msg_scopes (mkMsg name psm false (map of_ufield fs) [])).
 Proof.
-  intros name psm fs H. rewrite msg_scopes_no_inline.
-  2:{ apply wf_no_inline. unfold fields_wf in H. apply andb_true_iff in H. tauto. }
-  constructor; [|constructor]. rewrite user_scope. now apply fields_wf_nodup.
+  intros name psm fs H Ht. unfold msg_scopes. cbn [m_oneof m_fields m_nested map flat_map]. rewrite !app_nil_r.
+  constructor.
+  - rewrite user_scope, user_inline_names. now apply fields_wf_nodup_all.
+  - apply user_inline_scopes; [now apply fields_wf_each|exact Ht].
 Qed.
 
 Lemma filter_none : forall {A} (p : A -> bool) l, Forall (fun x => p x = false) l -> filter p l = [].
@@ -642,23 +775,31 @@ Proof. induction 1 as [|x l H _ IH]; [reflexivity|]. cbn [filter]. now rewrite H
 
 (* user fields followed by fields of the expansion *)
 Lemma added_scope : forall fs (added : list ofield),
-  Forall (fun f => f_optional f = false /\ is_map_field f = false) added ->
-  fields_scope false (map of_ufield fs ++ added) =
+  Forall (fun f => f_optional f = false /\ is_map_field f = false /\ f_inline f = None) added ->
+  fields_scope false (map of_ufield fs ++ added) ++ inline_names (map of_ufield fs ++ added) =
     map (fun u => to_snake (uf_name u)) fs ++ map proto_name added
-    ++ map (fun u => 95 :: to_snake (uf_name u)) (filter uf_optional fs)
-    ++ map (fun u => map_name (to_snake (uf_name u))) (filter is_map_kind fs).
+    ++ (map (fun u => 95 :: to_snake (uf_name u)) (filter sp_presence fs)
+        ++ map (fun u => map_name (to_snake (uf_name u))) (filter is_map_kind fs))
+    ++ sp_inline_names fs
+  /\ inline_scopes (map of_ufield fs ++ added) = inline_scopes (map of_ufield fs).
 Proof.
-  intros fs added Ha. unfold fields_scope, entry_names. rewrite !filter_app, !map_app.
+  intros fs added Ha.
   assert (E1 : filter f_optional added = []).
   { apply filter_none. eapply Forall_impl; [|exact Ha]. intros f [H _]. exact H. }
   assert (E2 : filter is_map_field added = []).
-  { apply filter_none. eapply Forall_impl; [|exact Ha]. intros f [_ H]. exact H. }
-  rewrite E1, E2. cbn [map]. rewrite !app_nil_r.
-  pose proof (user_scope fs) as U. unfold fields_scope, sp_field_scope, entry_names in U.
-  rewrite (filter_map_comm of_ufield f_optional uf_optional) by (intros x; apply of_ufield_facts).
-  rewrite (filter_map_comm of_ufield is_map_field is_map_kind) by (intros x; apply of_ufield_facts).
-  rewrite !map_map. rewrite <- !app_assoc. f_equal; [|f_equal; f_equal];
-    apply map_ext; intros u; unfold proto_name; destruct (of_ufield_facts u) as [-> _]; reflexivity.
+  { apply filter_none. eapply Forall_impl; [|exact Ha]. intros f [_ [H _]]. exact H. }
+  assert (E3 : inline_names added = [] /\ inline_scopes added = []).
+  { apply no_inline_names. eapply Forall_impl; [|exact Ha]. intros f [_ [_ H]]. exact H. }
+  destruct E3 as [E3 E4]. split.
+  - assert (In_app : inline_names (map of_ufield fs ++ added) = inline_names (map of_ufield fs) ++ inline_names added)
+      by (unfold inline_names; apply flat_map_app).
+    rewrite In_app, E3, app_nil_r, user_inline_names.
+    unfold fields_scope, entry_names. rewrite !filter_app, !map_app, E1, E2. cbn [map]. rewrite !app_nil_r.
+    rewrite (filter_map_comm of_ufield f_optional sp_presence) by (intros x; apply of_ufield_facts).
+    rewrite (filter_map_comm of_ufield is_map_field is_map_kind) by (intros x; apply of_ufield_facts).
+    rewrite !map_map. rewrite <- !app_assoc. f_equal; [|f_equal; f_equal; [|f_equal]];
+      apply map_ext; intros u; unfold proto_name; destruct (of_ufield_facts u) as [-> _]; reflexivity.
+  - unfold inline_scopes. rewrite flat_map_app. fold (inline_scopes added). rewrite E4. apply app_nil_r.
 Qed.
 
 Lemma path_keys_not_reserved : forall e ks, reserved_free e = true ->
@@ -699,13 +840,15 @@ Lemma paged_request_scopes : forall e name ks, quantified e -> reserved_free e =
   all_nodup (msg_scopes (mkMsg name None false (map of_ufield ks ++ [page_request; query_request]) [])).
 Proof.
   intros e name ks Q Hr Hs Hk. pose proof (sub_wf _ _ Hs (q_keys_wf e Q)) as Wk.
-  rewrite msg_scopes_no_inline.
-  2:{ apply Forall_app. split; [|repeat constructor]. apply wf_no_inline. unfold fields_wf in Wk. apply andb_true_iff in Wk. tauto. }
-  constructor; [|constructor]. rewrite added_scope by (repeat constructor).
-  apply (scope_with_added ks [bs "page"; bs "query"]).
-  - exact (sub_wf _ _ Hs (q_keys_wf e Q)).
-  - repeat constructor; cbn; intuition discriminate.
-  - now apply (path_keys_not_reserved e).
+  assert (Tf : type_free ks).
+  { apply (type_free_of e _ Hr). intros u Hu. apply in_all_keys. eapply Sub_In; eassumption. }
+  unfold msg_scopes. cbn [m_oneof m_fields m_nested map flat_map]. rewrite !app_nil_r.
+  destruct (added_scope ks [page_request; query_request]) as [E1 E2]; [repeat constructor|].
+  rewrite E1, E2. constructor.
+  - apply (scope_with_added ks [bs "page"; bs "query"] Wk).
+    + repeat constructor; cbn; intuition discriminate.
+    + now apply (path_keys_not_reserved e).
+  - apply user_inline_scopes; [now apply fields_wf_each|exact Tf].
 Qed.
 
 Lemma literal_scopes : forall name psm (fs : list ofield) names,
@@ -725,8 +868,10 @@ Lemma inner_head : forall e fl, quantified e -> reserved_free e = true ->
 Proof.
   intros e fl Q Hr. unfold inner_scopes. cbn [flat_map status_enum app]. rewrite app_nil_r.
   repeat apply all_nodup_app.
-  - unfold keys_msg. rewrite <- (map_map k_def of_ufield). apply user_msg_scopes. exact (q_keys_wf e Q).
-  - unfold data_msg. apply user_msg_scopes. exact (q_data_wf e Q).
+  - unfold keys_msg. rewrite <- (map_map k_def of_ufield). apply user_msg_scopes; [exact (q_keys_wf e Q)|].
+    apply (type_free_of e _ Hr). intros u Hu. now apply in_all_keys.
+  - unfold data_msg. apply user_msg_scopes; [exact (q_data_wf e Q)|].
+    apply (type_free_of e _ Hr). intros u Hu. now apply in_all_data.
   - unfold state_msg. eapply literal_scopes; [reflexivity|vm_compute; reflexivity|reflexivity].
   - (* the event oneof: options, the proto oneof "type", the nested event messages *)
     unfold msg_scopes, event_type_msg. cbn [m_oneof m_fields m_nested]. constructor.
@@ -744,7 +889,7 @@ Proof.
       { apply no_inline_names. apply Forall_map. apply Forall_forall. intros ev _. reflexivity. }
       rewrite E, Ein, map_map. cbn [fst app].
       pose proof (q_event_opts e Q) as Ho. apply nodup_bytes_NoDup in Ho. fold opts in Ho.
-      destruct (reserved_free_parts e Hr) as [_ [_ [_ [R4 _]]]].
+      destruct (reserved_free_parts e Hr) as [_ [_ [R4 _]]].
       assert (Hcap : forall ev, In ev (e_events e) -> starts_cap (ev_name ev) = true).
       { intros ev Hev. pose proof (q_events e Q) as H. rewrite forallb_forall in H. specialize (H ev Hev).
         apply andb_true_iff in H. destruct H as [H _]. apply andb_true_iff in H. destruct H as [H _].
@@ -776,9 +921,11 @@ Proof.
       cbn [snd].
       pose proof (q_events e Q) as H. rewrite forallb_forall in H. specialize (H ev Hev).
       apply andb_true_iff in H. destruct H as [H _]. apply andb_true_iff in H. destruct H as [_ W].
-      assert (Wf : forallb ufield_wf (ev_fields ev) = true) by (unfold fields_wf in W; apply andb_true_iff in W; tauto).
-      destruct (no_inline_names _ (wf_no_inline _ Wf)) as [-> ->].
-      constructor; [|constructor]. rewrite app_nil_r, user_scope. now apply fields_wf_nodup.
+      assert (Tf : type_free (ev_fields ev)).
+      { apply (type_free_of e _ Hr). intros u Hu. eapply in_all_event; eassumption. }
+      constructor.
+      * rewrite user_scope, user_inline_names. now apply fields_wf_nodup_all.
+      * apply user_inline_scopes; [now apply fields_wf_each|exact Tf].
   - unfold event_msg. eapply literal_scopes; [reflexivity|vm_compute; reflexivity|reflexivity].
 Qed.
 
@@ -799,9 +946,10 @@ Lemma inner_query : forall e, quantified e -> reserved_free e = true -> all_nodu
 Proof.
   intros e Q Hr. unfold query_components. rewrite inner_service. cbn [flat_map map snd method_components mt_name].
   rewrite !inner_scopes_app, !inner_method. cbn [inner_scopes flat_map]. rewrite ?app_nil_r.
-  destruct (reserved_free_parts e Hr) as [_ [_ [_ [_ [_ [R5 R6]]]]]].
+  destruct (reserved_free_parts e Hr) as [_ [_ [_ [_ [R5 [R6 _]]]]]].
   repeat apply all_nodup_app.
-  - apply user_msg_scopes. exact (sub_wf _ _ (get_keys_sub e) (q_keys_wf e Q)).
+  - apply user_msg_scopes; [exact (sub_wf _ _ (get_keys_sub e) (q_keys_wf e Q))|].
+    apply (type_free_of e _ Hr). intros u Hu. apply in_all_keys. now apply get_keys_incl.
   - (* Get response: the entity's own property, and events when eventsInGet *)
     rewrite msg_scopes_no_inline.
     2:{ constructor; [reflexivity|]. destruct (match e_query e with Some q => q_events_in_get q | None => false end); repeat constructor. }
@@ -826,9 +974,10 @@ Proof.
       repeat (destruct H as [H|H]; [apply app_inv_head in H; discriminate|]); exact H.
 Qed.
 
-Lemma inner_command : forall e c, quantified e -> In c (e_commands e) -> all_nodup (inner_scopes (command_components e c)).
+Lemma inner_command : forall e c, quantified e -> reserved_free e = true -> In c (e_commands e) ->
+  all_nodup (inner_scopes (command_components e c)).
 Proof.
-  intros e c Q Hc. unfold command_components. rewrite inner_service.
+  intros e c Q Hr Hc. unfold command_components. rewrite inner_service.
   pose proof (q_commands e Q) as H. rewrite forallb_forall in H. specialize (H c Hc).
   apply andb_true_iff in H. destruct H as [H Hn]. apply andb_true_iff in H. destruct H as [_ Hm].
   rewrite forallb_forall in Hm. apply all_nodup_app.
@@ -838,9 +987,12 @@ Proof.
     repeat match type of Hm with
            | (_ && _) = true => apply andb_true_iff in Hm; let H' := fresh "M" in destruct Hm as [Hm H']
            end.
-    apply all_nodup_app; [now apply user_msg_scopes|].
-    destruct (md_response m) as [r|]; [|constructor]. cbn [option_map].
-    apply andb_true_iff in M0. destruct M0 as [W _]. now apply user_msg_scopes.
+    apply all_nodup_app.
+    { apply user_msg_scopes; [assumption|]. apply (type_free_of e _ Hr). intros u Hu.
+      eapply in_all_request; eassumption. }
+    destruct (md_response m) as [r|] eqn:Er; [|constructor]. cbn [option_map].
+    apply andb_true_iff in M0. destruct M0 as [W _]. apply user_msg_scopes; [assumption|].
+    apply (type_free_of e _ Hr). intros u Hu. eapply in_all_response; eassumption.
   - constructor; [|constructor]. rewrite !map_map. cbn [snd method_components mt_name].
     apply nodup_bytes_NoDup in Hn. exact Hn.
 Qed.
@@ -863,38 +1015,35 @@ Proof.
   intros e s Q Hr Hs. unfold summary_components. rewrite inner_topic. apply all_nodup_app.
   - pose proof (q_summaries e Q) as H. rewrite forallb_forall in H. specialize (H s Hs).
     apply andb_true_iff in H. destruct H as [H _]. apply andb_true_iff in H. destruct H as [_ W].
-    rewrite msg_scopes_no_inline.
-    2:{ constructor; [reflexivity|]. apply wf_no_inline. unfold fields_wf in W. apply andb_true_iff in W. tauto. }
-    constructor; [|constructor].
-    destruct (reserved_free_parts e Hr) as [_ [_ [R3 _]]]. rewrite forallb_forall in R3. specialize (R3 s Hs).
+    destruct (reserved_free_parts e Hr) as [_ [R3 _]]. rewrite forallb_forall in R3. specialize (R3 s Hs).
     rewrite forallb_forall in R3.
-    (* upsert first, then the user's fields *)
-    pose proof (scope_with_added (s_fields s) [bs "upsert"] W) as N.
+    assert (Tf : type_free (s_fields s)).
+    { apply (type_free_of e _ Hr). intros u Hu. eapply in_all_summary; eassumption. }
+    (* upsert first, then the user's fields: a rearrangement of (user protos) ++ [upsert] ++ the rest *)
+    set (up := plain_field "upsert" (TObject (bs "j5.messaging.v1") (bs "UpsertMetadata")) true).
+    unfold msg_scopes. cbn [m_oneof m_fields m_nested map flat_map]. rewrite !app_nil_r.
     assert (Hadd : Forall (fun x => lower_start x = true /\ ~ In x (map (fun u => to_snake (uf_name u)) (s_fields s))) [bs "upsert"]).
     { constructor; [|constructor]. split; [reflexivity|]. intros Hin. apply in_map_iff in Hin. destruct Hin as [u [Eu Hu]].
       specialize (R3 u Hu). rewrite Eu, bytes_eqb_refl in R3. discriminate. }
-    specialize (N ltac:(repeat constructor; intros []) Hadd).
-    unfold fields_scope, entry_names. cbn [map filter plain_field mkF f_optional is_map_field f_type].
-    pose proof (user_scope (s_fields s)) as U. unfold fields_scope, sp_field_scope, entry_names in U.
-    set (A := map (fun u => to_snake (uf_name u)) (s_fields s)) in *.
-    set (B := map (fun u => 95 :: to_snake (uf_name u)) (filter uf_optional (s_fields s))) in *.
-    set (C := map (fun u => map_name (to_snake (uf_name u))) (filter is_map_kind (s_fields s))) in *.
-    (* the scope is upsert :: A ++ B ++ C, a rearrangement of A ++ [upsert] ++ B ++ C *)
-    assert (Eq : map proto_name (map of_ufield (s_fields s)) = A).
-    { unfold A. rewrite map_map. apply map_ext. intros u. unfold proto_name. destruct (of_ufield_facts u) as [-> _]. reflexivity. }
-    assert (EB : map (fun f => 95 :: proto_name f) (filter f_optional (map of_ufield (s_fields s))) = B).
-    { unfold B. rewrite (filter_map_comm of_ufield f_optional uf_optional) by (intros x; apply of_ufield_facts).
-      rewrite map_map. apply map_ext. intros u. unfold proto_name. destruct (of_ufield_facts u) as [-> _]. reflexivity. }
-    assert (EC : map (fun f => map_name (proto_name f)) (filter is_map_field (map of_ufield (s_fields s))) = C).
-    { unfold C. rewrite (filter_map_comm of_ufield is_map_field is_map_kind) by (intros x; apply of_ufield_facts).
-      rewrite map_map. apply map_ext. intros u. unfold proto_name. destruct (of_ufield_facts u) as [-> _]. reflexivity. }
-    rewrite Eq, EB, EC. change (proto_name (mkF10 (bs "upsert") (TObject (bs "j5.messaging.v1") (bs "UpsertMetadata")) false true false false None None None false)) with (bs "upsert").
-    cbn [app]. constructor.
-    + intros Hin. apply in_app_or in Hin. destruct Hin as [Hin|Hin].
-      * rewrite Forall_forall in Hadd. destruct (Hadd (bs "upsert") (or_introl eq_refl)) as [_ Hn]. exact (Hn Hin).
-      * unfold fields_wf in W. apply andb_true_iff in W. destruct W as [W _].
-        exact (lower_not_in_extras (s_fields s) (bs "upsert") W eq_refl Hin).
-    + apply (Sub_NoDup _ _ (Sub_app _ _ _ _ (Sub_refl A) (Sub_skip (bs "upsert") _ _ (Sub_refl (B ++ C)))) N).
+    pose proof (scope_with_added (s_fields s) [bs "upsert"] W ltac:(repeat constructor; intros []) Hadd) as N.
+    set (F := map of_ufield (s_fields s)) in *.
+    assert (Es : fields_scope false (up :: F) ++ inline_names (up :: F)
+                 = bs "upsert" :: sp_field_scope (s_fields s) ++ sp_inline_names (s_fields s)).
+    { unfold inline_names. cbn [flat_map up plain_field mkF f_inline app]. fold (inline_names F).
+      unfold F. rewrite user_inline_names. unfold fields_scope, entry_names.
+      cbn [map filter up plain_field mkF f_optional is_map_field f_type app].
+      pose proof (user_scope (s_fields s)) as U. unfold fields_scope, entry_names in U. fold F in U.
+      change (proto_name (mkF (bs "upsert") (TObject (bs "j5.messaging.v1") (bs "UpsertMetadata")) false true false false None None)) with (bs "upsert").
+      cbn [app]. f_equal. fold F. rewrite <- U. now rewrite <- !app_assoc. }
+    assert (Ei : inline_scopes (up :: F) = inline_scopes F).
+    { unfold inline_scopes. cbn [flat_map up plain_field mkF f_inline app]. reflexivity. }
+    rewrite Es, Ei. constructor.
+    + constructor.
+      * intros Hin. unfold sp_field_scope in Hin. rewrite <- !app_assoc in Hin. apply in_app_or in Hin. destruct Hin as [Hin|Hin].
+        -- rewrite Forall_forall in Hadd. destruct (Hadd (bs "upsert") (or_introl eq_refl)) as [_ Hn]. exact (Hn Hin).
+        -- rewrite app_assoc in Hin. exact (lower_not_in_extras (s_fields s) (bs "upsert") (fields_wf_each _ W) eq_refl Hin).
+      * now apply fields_wf_nodup_all.
+    + apply user_inline_scopes; [now apply fields_wf_each|exact Tf].
   - repeat constructor. intros [].
 Qed.
 
@@ -903,33 +1052,33 @@ Lemma inner_schema : forall e s, quantified e -> reserved_free e = true -> In s 
 Proof.
   intros e s Q Hr Hs. pose proof (q_schemas e Q) as H. rewrite forallb_forall in H. specialize (H s Hs).
   apply andb_true_iff in H. destruct H as [H _]. apply andb_true_iff in H. destruct H as [_ W].
+  assert (Tf : type_free (schema_fields s)).
+  { apply (type_free_of e _ Hr). intros u Hu. eapply in_all_schema; eassumption. }
   destruct s as [n fs|n fs|n os]; cbn [schema_component inner_scopes flat_map schema_fields] in *; rewrite ?app_nil_r.
   - now apply user_msg_scopes.
-  - (* a oneof of the block: options, the proto oneof "type", map entries *)
-    rewrite msg_scopes_no_inline.
-    2:{ apply wf_no_inline. unfold fields_wf in W. apply andb_true_iff in W. tauto. }
-    constructor; [|constructor].
-    destruct (reserved_free_parts e Hr) as [_ [_ [_ [_ [R4 _]]]]]. rewrite forallb_forall in R4. specialize (R4 _ Hs).
+  - (* a oneof of the block: options, the proto oneof "type", map entries, inline types *)
+    destruct (reserved_free_parts e Hr) as [_ [_ [_ [R4 _]]]]. rewrite forallb_forall in R4. specialize (R4 _ Hs).
     cbn in R4. rewrite forallb_forall in R4.
-    pose proof (scope_with_added fs [bs "type"] W) as N.
     assert (Hadd : Forall (fun x => lower_start x = true /\ ~ In x (map (fun u => to_snake (uf_name u)) fs)) [bs "type"]).
     { constructor; [|constructor]. split; [reflexivity|]. intros Hin. apply in_map_iff in Hin. destruct Hin as [u [Eu Hu]].
       specialize (R4 u Hu). rewrite Eu, bytes_eqb_refl in R4. discriminate. }
-    specialize (N ltac:(repeat constructor; intros []) Hadd).
-    unfold fields_scope, entry_names.
-    assert (Eq : map proto_name (map of_ufield fs) = map (fun u => to_snake (uf_name u)) fs).
-    { rewrite map_map. apply map_ext. intros u. unfold proto_name. destruct (of_ufield_facts u) as [-> _]. reflexivity. }
-    assert (EC : map (fun f => map_name (proto_name f)) (filter is_map_field (map of_ufield fs))
-                 = map (fun u => map_name (to_snake (uf_name u))) (filter is_map_kind fs)).
-    { rewrite (filter_map_comm of_ufield is_map_field is_map_kind) by (intros x; apply of_ufield_facts).
-      rewrite map_map. apply map_ext. intros u. unfold proto_name. destruct (of_ufield_facts u) as [-> _]. reflexivity. }
-    rewrite Eq, EC.
-    eapply Sub_NoDup; [|exact N]. apply Sub_app; [apply Sub_refl|].
-    destruct (is_nil (map of_ufield fs)).
-    + cbn [app]. apply Sub_skip. rewrite <- (app_nil_l (map _ (filter is_map_kind fs))) at 1.
-      apply Sub_app; [apply Sub_nil_l|apply Sub_refl].
-    + cbn [app]. apply Sub_keep. rewrite <- (app_nil_l (map _ (filter is_map_kind fs))) at 1.
-      apply Sub_app; [apply Sub_nil_l|apply Sub_refl].
+    pose proof (scope_with_added fs [bs "type"] W ltac:(repeat constructor; intros []) Hadd) as N.
+    unfold msg_scopes. cbn [m_oneof m_fields m_nested map flat_map]. rewrite !app_nil_r. constructor.
+    + rewrite user_inline_names. unfold fields_scope, entry_names.
+      assert (Eq : map proto_name (map of_ufield fs) = map (fun u => to_snake (uf_name u)) fs).
+      { rewrite map_map. apply map_ext. intros u. unfold proto_name. destruct (of_ufield_facts u) as [-> _]. reflexivity. }
+      assert (EC : map (fun f => map_name (proto_name f)) (filter is_map_field (map of_ufield fs))
+                   = map (fun u => map_name (to_snake (uf_name u))) (filter is_map_kind fs)).
+      { rewrite (filter_map_comm of_ufield is_map_field is_map_kind) by (intros x; apply of_ufield_facts).
+        rewrite map_map. apply map_ext. intros u. unfold proto_name. destruct (of_ufield_facts u) as [-> _]. reflexivity. }
+      rewrite Eq, EC. eapply Sub_NoDup; [|exact N]. rewrite <- !app_assoc.
+      apply Sub_app; [apply Sub_refl|].
+      destruct (is_nil (map of_ufield fs)).
+      * cbn [app]. apply Sub_skip. rewrite <- (app_nil_l (map _ (filter is_map_kind fs) ++ _)) at 1.
+        apply Sub_app; [apply Sub_nil_l|]. apply Sub_app; [apply Sub_refl|apply Sub_refl].
+      * cbn [app]. apply Sub_keep. rewrite <- (app_nil_l (map _ (filter is_map_kind fs) ++ _)) at 1.
+        apply Sub_app; [apply Sub_nil_l|]. apply Sub_app; [apply Sub_refl|apply Sub_refl].
+    + apply user_inline_scopes; [now apply fields_wf_each|exact Tf].
   - constructor.
 Qed.
 
@@ -977,7 +1126,7 @@ Theorem full_modulo_reserved : forall e, in_quantifier e = true -> reserved_free
   exists cs, compile e = Ok cs /\ C17_spec e cs.
 Proof.
   intros e Hq Hr. destruct (acceptance e Hq Hr) as [cs Hc]. exists cs. split; [exact Hc|].
-  destruct (full_partial e cs Hc) as [H1 [H2 H3]]. split; [exact H1|]. split; [exact (H2 Hq)|exact (H3 Hq Hr)].
+  destruct (full_partial e cs Hc) as [H1 H2]. split; [exact H1|exact (H2 Hq)].
 Qed.
 
 (* an entity named Page: its own property in the List response is "page", next to the page field *)
@@ -1040,4 +1189,68 @@ Proof.
   destruct (default_paths e Hb Hi Hp (default_base_clean e Hb Hn (q_pkg e Q)) Hk) as [H0 [H2 _]].
   split; [exact H0|]. split; [exact H2|]. unfold query_base, base_url, snake_name. rewrite Hb.
   rewrite <- !app_assoc. reflexivity.
+Qed.
+
+(* ======================= several entities in one file ===================================================== *)
+Lemma convert_all_accepts : forall es, Forall quantified es ->
+  exists l, Forall2 (fun e cs => exists fl, cs = expand_with e fl) es l /\ convert_all es = Ok (concat l).
+Proof.
+  induction 1 as [|e es Q _ [l [HF Hc]]].
+  - exists []. split; [constructor|reflexivity].
+  - destruct (convert_accepts e Q) as [fl He]. exists (expand_with e fl :: l). split.
+    + constructor; [now exists fl|exact HF].
+    + cbn [convert_all concat]. now rewrite He, Hc.
+Qed.
+
+Lemma file_scopes_concat : forall es l f (sp : entity -> list bytes),
+  Forall2 (fun e cs => exists fl, cs = expand_with e fl) es l ->
+  (forall e fl, file_scope f (expand_with e fl) = sp e) ->
+  file_scope f (concat l) = flat_map sp es.
+Proof.
+  intros es l f sp HF Hsp. induction HF as [|e cs es l [fl ->] _ IH]; [reflexivity|].
+  cbn [concat flat_map]. now rewrite file_scope_app, Hsp, IH.
+Qed.
+
+Lemma inner_scopes_concat : forall es l,
+  Forall2 (fun e cs => exists fl, cs = expand_with e fl) es l ->
+  Forall (fun e => quantified e /\ reserved_free e = true) es ->
+  all_nodup (inner_scopes (concat l)).
+Proof.
+  intros es l HF. induction HF as [|e cs es l [fl ->] _ IH]; intros Hall; [constructor|].
+  inversion Hall as [|? ? [Q Hr] Hrest]; subst. cbn [concat]. rewrite inner_scopes_app. apply all_nodup_app; [|now apply IH].
+  unfold expand_with. rewrite !inner_scopes_app, !inner_scopes_flat_map.
+  apply all_nodup_app; [now apply inner_head|].
+  apply all_nodup_app; [now apply inner_query|].
+  apply all_nodup_app; [apply all_nodup_flat_map; intros c Hc; now apply inner_command|].
+  apply all_nodup_app; [apply inner_publish|].
+  apply all_nodup_app; [apply all_nodup_flat_map; intros s Hs; now apply inner_summary|].
+  apply (inner_schemas e _ Q Hr). auto.
+Qed.
+
+Theorem file_acceptance : forall es, file_quantifier es = true -> exists cs, compile_file es = Ok cs.
+Proof.
+  intros es H. unfold file_quantifier in H.
+  repeat match type of H with
+         | (_ && _) = true => apply andb_true_iff in H; let H' := fresh "F" in destruct H as [H H']
+         end.
+  assert (Hall : Forall (fun e => quantified e /\ reserved_free e = true) es).
+  { apply Forall_forall. intros e He. rewrite forallb_forall in H. specialize (H e He).
+    apply andb_true_iff in H. destruct H as [H1 H2]. split; [now apply quantified_of|exact H2]. }
+  assert (HQ : Forall quantified es) by (eapply Forall_impl; [|exact Hall]; intros e [Q _]; exact Q).
+  destruct (convert_all_accepts es HQ) as [l [HF Hc]]. exists (concat l).
+  unfold compile_file.
+  assert (Hst : existsb (fun e => is_nil (e_status e)) es = false).
+  { destruct (existsb (fun e => is_nil (e_status e)) es) eqn:E; [|reflexivity]. apply existsb_exists in E.
+    destruct E as [e [He Hn]]. rewrite Forall_forall in HQ. pose proof (q_status_ne e (HQ e He)) as Hne.
+    destruct (e_status e); [congruence|discriminate]. }
+  rewrite Hst, Hc.
+  assert (Hl : link_ok (concat l) = true).
+  { unfold link_ok, scopes. apply forallb_forall. intros sc Hin. apply nodup_bytes_NoDup.
+    apply in_app_or in Hin. destruct Hin as [Hin|Hin].
+    - destruct Hin as [<-|[<-|[<-|[]]]].
+      + rewrite (file_scopes_concat es l 0 sp_main_scope HF main_scope_eq). now apply nodup_bytes_NoDup.
+      + rewrite (file_scopes_concat es l 1 sp_service_scope HF service_scope_eq). now apply nodup_bytes_NoDup.
+      + rewrite (file_scopes_concat es l 2 sp_topic_scope HF topic_scope_eq). now apply nodup_bytes_NoDup.
+    - pose proof (inner_scopes_concat es l HF Hall) as A. unfold all_nodup in A. rewrite Forall_forall in A. now apply A. }
+  now rewrite Hl.
 Qed.
